@@ -50,13 +50,14 @@ pub struct Runner<'tcx> {
     pub roots: Vec<(Instance<'tcx>, TypingEnv<'tcx>)>,
     pub names: Vec<String>,
     pub cache: BTreeMap<String, Val>,
+    pub big_atoms: bool,
 }
 
 impl<'tcx> Runner<'tcx> {
     pub fn new(tcx: TyCtxt<'tcx>) -> Runner<'tcx> {
         let roots = reachable_instances(tcx);
         let names = roots.iter().map(|r| inst_name(tcx, r.0)).collect();
-        Runner { ip: Interp::new(tcx), roots, names, cache: BTreeMap::new() }
+        Runner { ip: Interp::new(tcx), roots, names, cache: BTreeMap::new(), big_atoms: false }
     }
 
     pub fn find_root(&self, pat: &str) -> Option<usize> {
@@ -276,7 +277,7 @@ impl<'tcx> Runner<'tcx> {
             Val::Tuple(t) => Val::Tuple(Rc::new(t.iter().map(|x| self.map_ints(st, x, f)).collect())),
             Val::Arr(a) => {
                 let mut r = ArrV::uniform(Val::Bot, a.len);
-                if a.len <= 16 {
+                if a.len <= 16 || (self.big_atoms && a.len <= 4096) {
                     for i in 0..a.len {
                         let e = self.map_ints(st, a.get(i), f);
                         r.over.insert(i, e);
@@ -573,6 +574,7 @@ pub fn run<'tcx>(tcx: TyCtxt<'tcx>) -> String {
         rn.ip.taint_track = job.opts.contains_key("taint");
         rn.ip.moduli = Rc::new(job.opts.get("modulus").map(|s| s.split(',').filter_map(|x| x.parse::<i128>().ok()).collect()).unwrap_or_default());
         rn.ip.peel = job.opts.get("peel").map(|s| s.split('|').filter_map(|x| x.rsplit_once(':').and_then(|(f, n)| Some((f.to_string(), n.parse::<u32>().ok()?)))).collect()).unwrap_or_default();
+        rn.big_atoms = job.opts.contains_key("atoms.big");
         let cap = job.opts.get("lin.cap").and_then(|s| s.parse::<usize>().ok());
         LIN_CAP.with(|c| c.set(cap.unwrap_or(6)));
         rn.ip.lin_tier = cap.is_some();
@@ -683,6 +685,27 @@ pub fn run<'tcx>(tcx: TyCtxt<'tcx>) -> String {
                 let sig = tcx.fn_sig(inst.def_id()).instantiate(tcx, inst.args).skip_norm_wip();
                 let rt = tcx.normalize_erasing_late_bound_regions(env, sig.output());
                 type_shape(tcx, rt, 0)
+            },
+            "lin_dump" => match (&v, job.opts.get("dump_lin")) {
+                (Some(v), Some(_)) => {
+                    // per integer leaf (in order): [modulus, constant, [[atom name, coefficient]...]] or null
+                    let mut leaves: Vec<IntV> = Vec::new();
+                    fn walk(v: &Val, out: &mut Vec<IntV>) {
+                        match v {
+                            Val::Int(i) if i.ty.bits > 8 => out.push(i.clone()),
+                            Val::Tuple(t) => t.iter().for_each(|x| walk(x, out)),
+                            Val::Arr(a) if a.len <= 4096 => (0..a.len).for_each(|k| walk(a.get(k), out)),
+                            _ => {}
+                        }
+                    }
+                    walk(v, &mut leaves);
+                    J::Arr(leaves.iter().map(|i| match &i.lin {
+                        Some(l) => J::Arr(vec![J::Int(l.m), J::Int(l.d), J::Arr(l.terms.iter().map(|t| J::Arr(vec![J::s(rn.ip.last_atom_names.get(&t.0).cloned().unwrap_or_else(|| format!("a{}", t.0))), J::Int(t.1)])).collect()),
+                                                J::Int(i.lo), J::Int(i.hi)]),
+                        None => J::Null,
+                    }).collect())
+                }
+                _ => J::Null,
             },
             "steps" => J::i((rn.ip.steps - steps0) as i128),
             "over_budget" => J::Bool(rn.ip.over_budget),
